@@ -189,6 +189,102 @@ fn vp_native_peer_is_the_url_host_body() {
     println!("VP-NATIVE peer_is_the_url_host cases={}", cases);
 }
 
+// ---------------------------------------------------------------- C14: what makes an https exchange succeed (native-tls back end)
+/// a TLS origin (rustls) presenting either the valid localhost-only certificate or the expired one of tests/tools; answers one
+/// request per connection with "tls-ok"
+fn serve_tls_origin(valid: bool) -> u16 {
+    let _ = rustls::crypto::aws_lc_rs::default_provider().install_default();
+    let (cert, key) = if valid { (pem_der(LOCALHOST_CERT), pem_der(LOCALHOST_KEY)) }
+                      else { (pem_der(include_str!(concat!(env!("CARGO_MANIFEST_DIR"), "/tests/tools/cert.pem"))), pem_der(include_str!(concat!(env!("CARGO_MANIFEST_DIR"), "/tests/tools/key.pem")))) };
+    let cfg = Arc::new(rustls::ServerConfig::builder().with_no_client_auth()
+        .with_single_cert(vec![rustls::pki_types::CertificateDer::from(cert)], rustls::pki_types::PrivateKeyDer::try_from(key).unwrap()).unwrap());
+    let l = TcpListener::bind("127.0.0.1:0").unwrap();
+    let port = l.local_addr().unwrap().port();
+    std::thread::spawn(move || { for s in l.incoming() { let s = match s { Ok(s) => s, Err(_) => break }; let cfg = cfg.clone();
+        std::thread::spawn(move || {
+            s.set_read_timeout(Some(std::time::Duration::from_millis(3000))).ok();
+            let mut tls = rustls::StreamOwned::new(rustls::ServerConnection::new(cfg).unwrap(), s);
+            if read_request(&mut tls).is_some() { tls.write_all(&resp(200, None, "tls-ok")).ok(); tls.conn.send_close_notify(); tls.flush().ok(); }
+        }); } });
+    port
+}
+/// C14 on the native-tls back end, direct connections: an https exchange succeeds exactly when accept_invalid_certs is set, or
+/// the certificate chains to an added root AND is within its validity period AND (matches the host OR accept_invalid_hostnames
+/// is set).  Servers: a valid certificate for `localhost` only / an expired one (CN=localhost); roots added: none, the valid
+/// one, the expired one; both flags; the host spelled `localhost` or `127.0.0.1`; and the flags and roots of one request, of its
+/// session and of a sibling request stay apart.
+#[test]
+fn vp_native_tls_verification_matrix() { crate::verif_native_watchdog::watched(vp_native_tls_verification_matrix_body); }
+fn vp_native_tls_verification_matrix_body() {
+    let expired_pem = include_str!(concat!(env!("CARGO_MANIFEST_DIR"), "/tests/tools/cert.pem"));
+    let root = |which: usize| -> Option<crate::tls::Certificate> { match which { 1 => Some(crate::tls::Certificate::from_pem(LOCALHOST_CERT.as_bytes()).unwrap()), 2 => Some(crate::tls::Certificate::from_pem(expired_pem.as_bytes()).unwrap()), _ => None } };
+    let ports = [serve_tls_origin(false), serve_tls_origin(true)];   // [expired, valid]
+    let direct = || { let mut s = crate::Session::new(); s.proxy_settings(crate::ProxySettings::builder().build()); s };
+    let mut cases = 0u64;
+    for server_valid in [false, true] { for added in 0..3usize { for certs_flag in [false, true] { for names_flag in [false, true] { for host in ["localhost", "127.0.0.1"] {
+        let mut b = direct().get(format!("https://{}:{}/", host, ports[server_valid as usize]));
+        if let Some(c) = root(added) { b = b.add_root_certificate(c); }
+        if certs_flag { b = b.danger_accept_invalid_certs(true); }
+        if names_flag { b = b.danger_accept_invalid_hostnames(true); }
+        let res = b.send(); cases += 1;
+        let chain_ok = (server_valid && added == 1) || (!server_valid && added == 2);   // self-signed: trusted only when added itself
+        let expect = certs_flag || (chain_ok && server_valid && (host == "localhost" || names_flag));
+        let ctx = format!("server certificate {} / root added {} / accept_invalid_certs {} / accept_invalid_hostnames {} / host {}", if server_valid { "valid for localhost" } else { "expired" }, ["none", "the valid certificate", "the expired certificate"][added], certs_flag, names_flag, host);
+        match res {
+            Ok(r) => { assert!(expect, "the exchange succeeded although it must not: {}", ctx); assert_eq!(r.text().unwrap(), "tls-ok"); }
+            Err(e) => assert!(!expect, "the exchange failed although everything it needs is given: {} -> {}", ctx, e),
+        }
+    } } } } }
+    // the same inside a CONNECT tunnel (an http proxy on 127.0.0.1; the origin behind it presents the valid certificate): the
+    // session in the tunnel is verified like a direct one, against the origin's name
+    for added in 0..2usize { for certs_flag in [false, true] { for names_flag in [false, true] { for host in ["localhost", "127.0.0.1"] {
+        let log: Arc<Mutex<Vec<Hop>>> = Arc::new(Mutex::new(Vec::new()));
+        let proxy = serve_tunnelling_proxy_with(log.clone(), |_, _| resp(200, None, "tls-ok"), true);
+        let mut s = crate::Session::new();
+        s.proxy_settings(crate::ProxySettings::builder().https_proxy(Url::parse(&format!("http://127.0.0.1:{}", proxy)).unwrap()).build());
+        let mut b = s.get(format!("https://{}:9443/", host));
+        if let Some(c) = root(added) { b = b.add_root_certificate(c); }
+        if certs_flag { b = b.danger_accept_invalid_certs(true); }
+        if names_flag { b = b.danger_accept_invalid_hostnames(true); }
+        let res = b.send(); cases += 1;
+        let expect = certs_flag || (added == 1 && (host == "localhost" || names_flag));
+        let ctx = format!("through a CONNECT tunnel: root added {} / accept_invalid_certs {} / accept_invalid_hostnames {} / origin {}", ["none", "the valid certificate"][added], certs_flag, names_flag, host);
+        match res {
+            Ok(r) => { assert!(expect, "the exchange succeeded although it must not: {}", ctx); assert_eq!(r.text().unwrap(), "tls-ok"); }
+            Err(e) => assert!(!expect, "the exchange failed although everything it needs is given: {} -> {}", ctx, e),
+        }
+    } } } }
+    // both checks are on by default: a stand-alone request, a fresh session
+    assert!(crate::get(format!("https://localhost:{}/", ports[1])).proxy_settings(crate::ProxySettings::builder().build()).send().is_err(), "an unknown self-signed certificate was accepted by default"); cases += 1;
+    // a flag or an added root affects exactly the session or request it was set on
+    let url_ok = format!("https://localhost:{}/", ports[1]);
+    let url_name = format!("https://127.0.0.1:{}/", ports[1]);
+    let valid_root = || crate::tls::Certificate::from_pem(LOCALHOST_CERT.as_bytes()).unwrap();
+    {   // set on one request: neither the session nor a sibling request sees it
+        let s = direct();
+        assert!(s.get(&url_ok).add_root_certificate(valid_root()).send().is_ok());
+        assert!(s.get(&url_ok).send().is_err(), "a root added to one request is trusted by a sibling request of the same session");
+        assert!(s.get(&url_ok).danger_accept_invalid_certs(true).send().is_ok());
+        assert!(s.get(&url_ok).send().is_err(), "accept_invalid_certs set on one request reached a sibling request");
+        assert!(s.get(&url_name).add_root_certificate(valid_root()).danger_accept_invalid_hostnames(true).send().is_ok());
+        assert!(s.get(&url_name).add_root_certificate(valid_root()).send().is_err(), "accept_invalid_hostnames set on one request reached a sibling request");
+        cases += 6;
+    }
+    {   // set on a session: its later requests see it, a clone taken before does not, another session does not
+        let mut s = direct(); let before = s.clone();
+        s.add_root_certificate(valid_root());
+        assert!(s.get(&url_ok).send().is_ok(), "a root added to the session is trusted by its requests");
+        assert!(before.get(&url_ok).send().is_err(), "a root added to a session is trusted by a clone taken before");
+        assert!(direct().get(&url_ok).send().is_err(), "a root added to one session is trusted by another");
+        assert!(s.get(&url_name).send().is_err(), "an added root does not waive the name check");
+        s.danger_accept_invalid_hostnames(true);
+        assert!(s.get(&url_name).send().is_ok());
+        assert!(s.get(&url_name).danger_accept_invalid_hostnames(false).send().is_err(), "the request switched the name check back on");
+        cases += 6;
+    }
+    println!("VP-NATIVE tls_verification_matrix cases={}", cases);
+}
+
 /// C08 inside a CONNECT tunnel: the CONNECT line names the origin host and its effective port, and the request inside the
 /// tunnel is in origin-form with a Host field that is the origin's host, plus its port only when that is not the scheme default
 #[test]
@@ -959,10 +1055,12 @@ fn read_request<R: Read>(r: &mut R) -> Option<Vec<u8>> {
 }
 /// `reply(request, tunnelled)` -> full response bytes; plain requests are answered in the clear, CONNECT gets 200 and then a TLS
 /// session (certificate of tests/tools, CN=localhost, expired: clients must waive verification) in which one request is answered
-fn serve_tunnelling_proxy(log: Arc<Mutex<Vec<Hop>>>, reply: impl Fn(&Req, bool) -> Vec<u8> + Send + Sync + 'static) -> u16 {
+fn serve_tunnelling_proxy(log: Arc<Mutex<Vec<Hop>>>, reply: impl Fn(&Req, bool) -> Vec<u8> + Send + Sync + 'static) -> u16 { serve_tunnelling_proxy_with(log, reply, false) }
+/// `valid_localhost_cert`: the origin inside the tunnel presents the valid localhost-only certificate instead of the expired one
+fn serve_tunnelling_proxy_with(log: Arc<Mutex<Vec<Hop>>>, reply: impl Fn(&Req, bool) -> Vec<u8> + Send + Sync + 'static, valid_localhost_cert: bool) -> u16 {
     let _ = rustls::crypto::aws_lc_rs::default_provider().install_default();
-    let cert = pem_der(include_str!(concat!(env!("CARGO_MANIFEST_DIR"), "/tests/tools/cert.pem")));
-    let key = pem_der(include_str!(concat!(env!("CARGO_MANIFEST_DIR"), "/tests/tools/key.pem")));
+    let cert = if valid_localhost_cert { pem_der(LOCALHOST_CERT) } else { pem_der(include_str!(concat!(env!("CARGO_MANIFEST_DIR"), "/tests/tools/cert.pem"))) };
+    let key = if valid_localhost_cert { pem_der(LOCALHOST_KEY) } else { pem_der(include_str!(concat!(env!("CARGO_MANIFEST_DIR"), "/tests/tools/key.pem"))) };
     let cfg = Arc::new(rustls::ServerConfig::builder().with_no_client_auth()
         .with_single_cert(vec![rustls::pki_types::CertificateDer::from(cert)], rustls::pki_types::PrivateKeyDer::try_from(key).unwrap()).unwrap());
     let l = TcpListener::bind("127.0.0.1:0").unwrap();
